@@ -18,7 +18,7 @@ import (
 // byte strings.
 func ArrayShift(data []byte) (first, remaining []byte) {
 	if len(data) == 0 {
-		panic("data cannot be empty")
+		return nil, data
 	}
 
 	b := bytes.NewBuffer(data)
